@@ -291,7 +291,7 @@ func (ex *Exec) runFrame(fr *Frame) Value {
 func (ex *Exec) stepLimit() {
 	if ex.termLimit > 0 && ex.steps > ex.termLimit && ex.termID != "" {
 		_, m := ex.check(nil, true)
-		ex.recordFinding(ex.termID, "nontermination", fmt.Sprintf("more than %d interpreter steps", ex.termLimit), m, "")
+		ex.recordFinding(ex.termID, "nontermination", fmt.Sprintf("more than %d interpreter steps", ex.termLimit)+ex.whereString(), m, "")
 		ex.abort(abPathEnd, "non-termination bound hit")
 	}
 	ex.abort(abUnwind, "step budget %d exceeded", ex.H.StepBudget)
